@@ -132,3 +132,10 @@ check(
     "Hypothesis property-based metamorphic testing; token-multiset and token-sequence comparison (stdlib tokenize)",
     "DESIGN.md §3 C16",
 )
+check(
+    "C08", "exploration",
+    "Differential execution over grammar-generated programs: for each of the 18 refactoring codemods a Hypothesis grammar produces closed, deterministic programs that print their observables (and/or/not trees with optional parentheses over startswith/endswith and isinstance/issubclass calls with scalar, tuple and name arguments; `not` over every comparison operator, chains and is/in with int/str/None/list/set/NaN operands; any/all/sum/min/max over list comprehensions with start/key/default arguments; set() forms; placeholder-free f-strings; assignment-then-if shapes at module and function level; hasattr __call__; logging.warn and %-/+-formatted logging calls at enabled and disabled levels; open() resource patterns on private temp files; lock with-statements; module-level global; unused/unordered/__future__ imports of side-effect-free stdlib modules; abc deprecated decorators; SQL string building against an in-memory sqlite3 table with benign values). Batches go through the real CLI; each program the codemod changed is executed before and after in forked children and stdout plus the escaping exception type must be equal.",
+    "Trusted: CPython as the semantics; equivalence is observed on the generated runtime values only; stderr is merged into stdout (logging errors become visible); programs that do not compile or time out (6 s) are discarded and counted. Known findings C08-K1..K3 are rewrites whose non-equivalent output is pinned by the repository's own tests.",
+    "grammar-based Hypothesis generation + differential execution (before/after codemod) in forked interpreters",
+    "DESIGN.md §3 C08",
+)
